@@ -95,9 +95,13 @@ class MulticastOutgoingQueue:
 
     def async_remove_records(self, records: Iterable[DNSRecord]) -> None:
         """Remove answers that must no longer be sent (their service was withdrawn)."""
+        withdrawn = set(records)
         for pending in self.queue:
-            for record in records:
+            for record in withdrawn:
                 pending.answers.pop(record, None)
+            # a withdrawn record can also ride along as an additional of an answer that stays
+            for additionals in pending.answers.values():
+                additionals.difference_update(withdrawn)
 
     def async_ready(self) -> None:
         """Process anything in the queue that is ready."""
